@@ -25,6 +25,21 @@ func PredicateBody(d *DeclInfo) (ast.Expr, bool) {
 			return nil, false
 		}
 		switch st := list[0].(type) {
+		case *ast.AssignStmt:
+			// `base := filepath.Base(p)` ahead of the guards: the local stands for its (only) definition
+			if st.Tok != token.DEFINE || len(st.Lhs) != 1 || len(st.Rhs) != 1 {
+				return nil, false
+			}
+			id, ok := st.Lhs[0].(*ast.Ident)
+			if !ok || id.Name == "_" {
+				return nil, false
+			}
+			obj := d.Pkg.TypesInfo.Defs[id]
+			rest, ok := build(list[1:])
+			if !ok || obj == nil {
+				return nil, false
+			}
+			return substParams(d.Pkg.TypesInfo, rest, map[types.Object]ast.Expr{obj: st.Rhs[0]}), true
 		case *ast.ReturnStmt:
 			if len(st.Results) != 1 {
 				return nil, false
